@@ -2,7 +2,7 @@
    `orc` is the blob oracle (vellum / roaring / snappy decoding done by the harness co-process). *)
 From Coq Require Import List NArith ZArith Bool.
 Import ListNotations.
-Require Import Sx Bytes Footer Ref Spec Wire.
+Require Import Sx Bytes Footer Ref Spec Wire Layout.
 Open Scope N_scope.
 
 (* ---- C20: (1 ops) with op 0 = AddRef, 1 = DecRef/Close ---- *)
@@ -46,12 +46,37 @@ Definition h_spec_build (args : list sx) : sx :=
   | _ => sxerr 3
   end.
 
+(* ---- C09 and all file checks: (4 file dvchunk) -> parsed content; blobs decoded by the oracle ---- *)
+Definition orc_fst (orc : sx -> sx) (bs : list N) : option (list (str * N)) :=
+  match orc (L [A 1; B bs]) with
+  | L kvs => mapo (fun e => match e with L [B k; A v] => Some (k, v) | _ => None end) kvs
+  | _ => None
+  end.
+Definition orc_nums (kind : N) (orc : sx -> sx) (bs : list N) : option (list N) :=
+  match orc (L [A kind; B bs]) with
+  | L xs => mapo getA xs
+  | _ => None
+  end.
+Definition orc_snappy (orc : sx -> sx) (bs : list N) : option (list N) :=
+  match orc (L [A 4; B bs]) with B d => Some d | _ => None end.
+
+Definition h_parse (orc : sx -> sx) (args : list sx) : sx :=
+  match args with
+  | [B file; A dvchunk] =>
+      match parse_v16 (orc_fst orc) (orc_nums 2 orc) (orc_nums 3 orc) (orc_snappy orc) dvchunk file with
+      | Some c => sx_of_content c
+      | None => sxerr 4
+      end
+  | _ => sxerr 4
+  end.
+
 Definition handle (orc : sx -> sx) (req : sx) : sx :=
   match req with
   | L (A k :: args) =>
       if k =? 1 then h_ref args
       else if k =? 2 then h_footer args
       else if k =? 3 then h_spec_build args
+      else if k =? 4 then h_parse orc args
       else sxerr 0
   | _ => sxerr 0
   end.
